@@ -4,3 +4,4 @@ CONSTANTS
   Weaken = {}
 INVARIANT Done
 CHECK_DEADLOCK FALSE
+VIEW ObsView
